@@ -541,6 +541,26 @@ func (fv *FuncVC) specCall(x *SCall, sc *SpecScope) Val {
 				return Val{sx("sl_ref", a.T), SRef, nil}
 			}
 			return Val{a.T, SRef, nil}
+		case "onceResult":
+			// onceResult("pkg.Func", i): the i-th result of the single call to an extern declared 'once'
+			key := x.Args[0].(*SStrLit).V
+			idx := x.Args[1].(*SIntLit).V
+			ex := fv.w.Externs.Specs[key]
+			if ex == nil || !ex.Once {
+				specFail("onceResult: %s is not an extern declared once", key)
+			}
+			_, rt := sc.parseSpecType(x.Args[2].(*SStrLit).V)
+			rs := th.sortOf(rt)
+			name := fmt.Sprintf("once$%s$r%s", sanitize(key), idx)
+			th.declConst(name, rs)
+			return Val{name, rs, rt}
+		case "second":
+			// second(f(...)): the second result of a pure two-result function
+			fv.specEval(x.Args[0], sc)
+			if len(fv.lastSpecResults) < 2 {
+				specFail("second(): not a two-result call")
+			}
+			return fv.lastSpecResults[1]
 		case "held":
 			// held(x): the mutex guarding x's fields is held by the current goroutine
 			a := args()[0]
@@ -678,6 +698,7 @@ func (fv *FuncVC) specFuncApp(f *types.Func, recv *Val, args []Val, sc *SpecScop
 			}
 		}
 		out := fv.pureApp(nil, f, full, recv, args, sc.stOrDummy())
+		fv.lastSpecResults = out
 		if len(out) == 0 {
 			specFail("function %s has no result", full)
 		}
